@@ -164,6 +164,9 @@ def curated_batches():
         # zig-zag length (63 / 64 / 65 bytes)
         [rec(5000, 0, value=b"\xa7" * (2**21 + 4321)), rec(5001, 1, key=b"k" * 64, value=b"v" * 63), rec(5002, 2, key=b"k" * 63, value=b"v" * 65)],
         [rec(7000, 0, key=b"\x5a" * (2**20 + 1), value=b"")],
+        # offset deltas at both ends of int32 (the second record 2^31 below / 2^31 - 1 above the first)
+        [rec(8000, 2**31, value=b"a"), rec(8001, 0, value=b"b")],
+        [rec(8000, 5, value=b"a"), rec(8001, 5 + 2**31 - 1, value=b"b")],
     ]
     return [dict(hdr, records=rs) for rs in sets]
 
